@@ -3,8 +3,8 @@
 // strong base-2 / strong Lucas tests list the pseudoprimes of the range (the inputs on which exactly
 // one half of Baillie-PSW errs) and the Au halves are observed on them.
 //
-// usage: c12_sieve LO HI MODE   (MODE bit 0: is_prime comparison + pseudoprime search,
-//                                 bit 1: find_prime_factor)
+// usage: c12_sieve LO HI MODE   (MODE bit 0: is_prime comparison, bit 1: find_prime_factor,
+//                                 bit 2: pseudoprime search by the harness's own slow tests)
 #pragma once
 #include "au/utility/factoring.hh"
 #include "c12_oracle.hh"
@@ -84,7 +84,7 @@ inline int sieve_main(int argc, char **argv) {
                     }
                 }
             }
-            if ((fmode & 1) && !want && n > 8 && (n & 1)) {
+            if ((fmode & 4) && !want && n > 8 && (n & 1)) {
                 const bool p2 = sprp(n, 2), pl = slprp(n);
                 if (p2 || pl) {
                     st.spsp2 += p2;
